@@ -15,7 +15,7 @@ DETECT = {
     "C18a": ("C18", "workflows-share-sub-invocation", ""),
     "C18b": ("C18", "subtask-launched-more-than-once / replay-differs:sub", ""),
     "C19a": ("C19", "execution-count-vs-statement:retry-boundary-race", ""),
-    "C19b": ("C19", "execution-count-vs-statement:* / execution-counts-differ:sync-vs-*", ""),
+    "C19b": ("C19", "execution-count-vs-statement:* / execution-counts-differ:sync-vs-*", "valid seed at the pinned commit only: on the repaired tree (after fix 354a599) the existing test pynenc_tests/unit/task/test_task_parallelize.py::test_parallelize_with_deepcopy fails with it, so there it no longer slips through the suite; C19 reports it on both trees"),
     "C20a": ("C20", "get-changed-system:overlapping-requests:queue-order", ""),
     "C20b": ("C20", "get-changed-system:/invocations/:state", ""),
 }
